@@ -53,13 +53,13 @@ def execute(sb, step):
                 v = str(step["version"])
                 out = os.path.join(sb, f"m{v}.torrent")
                 if step.get("via") == "cli":
-                    cli(["create", "--meta-version", v, "--piece-length", "16384", "-o", out, "--prog", "0",
+                    cli(["create", "--meta-version", v, "--piece-length", str(step.get("pl", 16384)), "-o", out, "--prog", "0",
                          "-a", "http://t/a", payload])
                 else:
                     cls = {"1": torrent.TorrentFile, "2": torrent.TorrentFileV2, "3": torrent.TorrentFileHybrid}[v]
                     if step.get("via") == "asm" and v != "1":
                         cls = torrent.TorrentAssembler
-                    cls(path=payload, outfile=out, piece_length=16384, progress=0, meta_version=v,
+                    cls(path=payload, outfile=out, piece_length=step.get("pl", 16384), progress=0, meta_version=v,
                         announce=["http://t/a"]).write()
                 return {"meta": canon_meta(out)}
             mf = os.path.join(sb, f"m{step.get('version', 1)}.torrent")
